@@ -120,6 +120,17 @@ CHECKS = {
         "number) after seed(); SHA-256 uninterpreted; PKCS#1 length contract; get_task/send_callback/time replaced by recorders in the "
         "dispatch harness. Unknown command ids (BeaconCommand(x) raises ValueError inside the loop) are outside the claim.",
         ref="§4 C19"),
+    "C18": dict(
+        text="For images built by the harness (x86/x64, several e_lfanew, 0..2/3 sections) with symbolic prepend, MZ magic, PE signature, "
+        "compile and export stamps, raw section bytes, append bytes, symbolic section VirtualAddress/VirtualSize and a symbolic 32-bit "
+        "export RVA, the solver proves: find_mz_offset equals the definition (smallest valid offset), architecture, compile stamp, export "
+        "stamp (directory of the first section containing the RVA at every delta, None without one), magic_mz, magic_pe (NUL-stripped), "
+        "stage prepend/append equal the image's. Version: for every 32-bit export stamp and 16-bit highest setting index the reported "
+        "version is the table entry of the stamp when present and non-zero, else of the index, 'Unknown' otherwise, with tuple and date "
+        "agreeing with the text; both tables are monotone by tuple and by date (SMT query over two symbolic keys).",
+        note="Trusted: z3; symx; BytesIO model and cstruct generated readers; re/strptime run natively on the concrete table strings; "
+        "version strings parsed independently by the harness. A zero export TimeDateStamp counts as absent (stated interpretation).",
+        ref="§4 C18"),
 }
 
 NA = {}
